@@ -92,8 +92,18 @@ def variable_assignments(schema, op, with_null=False):
         yield {n: v for n, v in combo if v is not C.ABSENT}
 
 
+def path_of(e):
+    """response path of one error entry as a tuple; a path that is neither a list nor null can equal no expected path"""
+    p = e.get("path") if isinstance(e, dict) else None
+    if p is None:
+        return ()
+    if isinstance(p, list):
+        return tuple(p)
+    return ("<path is not a list>", repr(p))
+
+
 def error_paths(resp):
-    return [tuple(e.get("path") or ()) for e in resp.get("errors") or []]
+    return [path_of(e) for e in resp.get("errors") or []]
 
 
 def compare_case(schema, located_doc, text, engine, scn, op_name, variables, policies=None):
